@@ -2681,6 +2681,9 @@ def check_c17(res):
         for ln, o in zip(tl, outs):
             if not o.startswith("SAME |"):
                 res.violations.append(Violation("concurrent-readers-disagree-or-race", ln, o[:300], cfg))
+        # reads whose elements are external values, between changes of the external-type table: the result of a read is
+        # a function of the bytes and the table as it is NOW, not of what earlier reads looked up
+        check_external_histories(res, cfg, "result-depends-on-earlier-reads-or-lookups", thorough)
         res.sample({"cfg": cfg, "doc": lines[0][:100]})
 
 
